@@ -19,19 +19,20 @@ MS = 1000
 
 
 def gen_scenario(r, sid, masked):
-    S = r.choice([NONE, 0, 3])
-    H = r.choice([NONE, 0, 3])
+    S = r.choice([NONE, 0, 3, 3])
+    H = r.choice([NONE, NONE, 0, 3, 3])
     chk = r.choice(["unset", "false", "true"])
-    init = {"v": r.choice("0012"), "x": "p"}
+    init = {"v": r.choice("00312"), "x": "p"}        # two false values (0, 3) and two true ones (1, 2): further false /
+                                                      # further true evaluations inside one period exist
     ops = []
     t = 2
-    for _ in range(r.randint(1, 7)):
-        t += r.choice([2, 2, 4, 6])
+    for _ in range(r.randint(1, 8)):
+        t += r.choice([2, 2, 2, 4, 6])
         k = r.random()
         if k < 0.15:
             ops.append({"t": t, "k": "other", "v": r.choice("01"), "x": "p"})
         else:
-            ops.append({"t": t, "k": "set", "v": r.choice("00112"), "x": "p" if masked else r.choice("pq")})
+            ops.append({"t": t, "k": "set", "v": r.choice("0031122"), "x": "p" if masked else r.choice("pq")})
     return {"sid": sid, "S": S, "H": H, "chk": chk, "init": init, "ops": ops, "horizon": t + 8, "masked": masked}
 
 
@@ -201,7 +202,7 @@ def main(ctx):
     for wname in wnames:
         open(os.path.join(ctx.scratch, "Hold_%s.cfg" % wname), "w").write(
             "SPECIFICATION Spec\nCONSTANTS MaxT = 8\n MaxEvals = 4\nINVARIANT %s\nCHECK_DEADLOCK FALSE\n" % wname)
-    per = ctx.pick(12, 150)
+    per = ctx.pick(20, 150)
     jobs = [{"seed": ctx.seed * 1000 + k, "count": per} for k in range(16)]
     thunks = [lambda: tlc.run("Hold", cfg, ctx.scratch, timeout=3000, workers=4)]
     thunks += [(lambda w=w: tlc.run("Hold", os.path.join(ctx.scratch, "Hold_%s.cfg" % w), ctx.scratch, timeout=600, workers=2))
